@@ -38,7 +38,11 @@ RULE = (
     'is accepted; (4) the default divmod and rake helpers are swept over '
     'int / Fraction / float / Decimal amounts, divisors 1-9, percentages '
     'and caps: parts add up to the amount, 0 <= remainder < divisor for '
-    'ints, 0 <= rake <= cap. distinct_nontrivial = distinct (check kind, '
+    'ints, 0 <= rake <= cap; (5) one game object built from sparse '
+    'mappings is called for a sequence of player counts and must give the '
+    'explicit-list state each time; (6) deal_hole / burn_card / deal_board '
+    'given the same known or unknown card as text, Card object, list, '
+    'tuple or iterator leave identical states. distinct_nontrivial = distinct (check kind, '
     'representation kind, shape) tuples + distinct helper inputs.')
 ASSUMPTIONS = [
     'the same state is decided by equality of all dataclass fields except '
@@ -51,7 +55,8 @@ MIN_NONTRIVIAL = {'quick': 1500, 'thorough': 4000}
 REQUIRED = ('representation_states_compared', 'negative_key_mappings',
             'card_round_trips', 'card_text_forms', 'invalid_layouts_refused',
             'valid_neighbours_accepted', 'divmod_postconditions',
-            'rake_postconditions', 'game_class_forms')
+            'rake_postconditions', 'game_class_forms',
+            'game_object_reuse_states', 'operation_card_forms')
 EXHAUSTIVE = {'quick': False, 'thorough': False}
 
 AUTOS = tuple(Automation)
@@ -187,6 +192,136 @@ def check_representations(res, rng):
         if tuple(cv) != tuple(vec):
             res.violation(f'clean_values({kind} of {vec}, {n}) = {cv}',
                           {'kind': 'clean', 'vec': [str(x) for x in vec]})
+
+
+def check_game_reuse(res, rng):
+    """One game object, several tables: a game built once from sparse
+    mappings (negative keys count from the button) is called for a sequence
+    of different player counts; every state must equal the state made from
+    the explicit per-player lists for that player count."""
+    unit = rng.choice([1, 1, 5])
+    bb = 2 * unit
+    game = rng.choice(['NoLimitTexasHoldem', 'FixedLimitTexasHoldem',
+                       'PotLimitOmahaHoldem', 'NoLimitShortDeckHoldem',
+                       'FixedLimitBadugi'])
+    amap = rng.choice([{-1: unit}, {-1: 2 * unit}, {1: unit}, {-2: unit},
+                       {0: unit, -1: unit}, {}])
+    bmap = rng.choice([{0: unit, 1: bb}, {-1: bb}, {0: unit, 1: bb, -1: -bb},
+                       (unit, bb)])
+    cls = getattr(pk_games, game)
+
+    def gargs_for(a, b):
+        if game in gen.BUTTON_GAMES_MINBET:
+            return [True, a, b, bb]
+        return [True, a, b, bb, 2 * bb]
+
+    def explicit(m, n):
+        if not isinstance(m, dict):
+            return list(m) + [0] * (n - len(m))
+        v = [0] * n
+        for k, x in m.items():
+            v[k if k >= 0 else n + k] = x
+        return v
+    try:
+        gobj = cls(AUTOS[:3], *gargs_for(dict(amap), dict(bmap)
+                                         if isinstance(bmap, dict) else bmap))
+    except Exception as exc:   # noqa: BLE001
+        res.violation(f'{game}(antes={amap}, blinds={bmap}) raised '
+                      f'{type(exc).__name__}: {exc}',
+                      {'kind': 'reuse', 'game': game})
+        return
+    counts = [rng.randint(3, 6) for _ in range(rng.randint(2, 4))]
+    if rng.random() < 0.7:
+        counts.sort(reverse=rng.random() < 0.7)
+    seed = rng.getrandbits(32)
+    for n in counts:
+        stacks = [rng.randint(10, 60) * unit for _ in range(n)]
+        payload = {'kind': 'reuse', 'game': game, 'antes': repr(amap),
+                   'blinds': repr(bmap), 'counts': counts, 'n': n}
+        try:
+            load.set_shuffle_key(seed)
+            st = gobj(list(stacks), n)
+            ref = make_state(game, gargs_for(explicit(amap, n),
+                                             explicit(bmap, n)),
+                             list(stacks), n, seed)
+        except ValueError:
+            res.counters['reuse_layout_refused'] += 1
+            continue
+        except Exception as exc:   # noqa: BLE001
+            res.violation(f'{game} game object reused for n={n} raised '
+                          f'{type(exc).__name__}: {exc}', payload)
+            return
+        res.counters['game_object_reuse_states'] += 1
+        got = (st.antes, st.blinds_or_straddles, st.starting_stacks)
+        exp = (ref.antes, ref.blinds_or_straddles, ref.starting_stacks)
+        d = twin.diff(twin.full_fingerprint(ref), twin.full_fingerprint(st))
+        if got != exp or d:
+            res.violation(
+                f'{game}: one game object (antes {amap}, blinds {bmap}) '
+                f'called for player counts {counts}: at n={n} it gives '
+                f'antes/blinds/stacks {got}, a fresh game with the explicit '
+                f'lists gives {exp} (fields differing: {d})', payload)
+            return
+        res.sigs.add(sig('reuse', game, repr(amap), repr(bmap), n))
+
+
+def check_operation_card_forms(res, rng):
+    """The same card handed to an operation as text, as a Card object, in a
+    list / tuple / one-shot iterator -- known and unknown (??) cards -- must
+    do the same thing."""
+    seed = rng.getrandbits(32)
+    n = rng.randint(2, 4)
+
+    def fresh():
+        load.set_shuffle_key(seed)
+        return pk_games.NoLimitTexasHoldem.create_state(
+            AUTOS[:3], True, 0, (1, 2), 2, [50] * n, n)
+    base = fresh()
+    dealable = list(base.get_dealable_cards())
+    known = rng.choice(dealable)
+    unknown = Card(Rank.UNKNOWN, Suit.UNKNOWN)
+    for card in (known, unknown):
+        for opname_, prep in (('deal_hole', 0), ('burn_card', 1),
+                              ('deal_board', 2)):
+            def prepared():
+                st = fresh()
+                if prep >= 1:
+                    while st.can_deal_hole():
+                        st.deal_hole()
+                    while st.actor_index is not None:
+                        st.check_or_call()
+                if prep >= 2:
+                    st.burn_card()
+                return st
+            ref = prepared()
+            try:
+                getattr(ref, opname_)(repr(card))
+            except ValueError:
+                continue
+            fref = twin.full_fingerprint(ref)
+            forms = [('Card', card), ('list', [card]), ('tuple', (card,)),
+                     ('iterator', iter([card])), ('text+space',
+                                                  f' {card!r} ')]
+            for kind, form in forms:
+                st = prepared()
+                res.counters['operation_card_forms'] += 1
+                payload = {'kind': 'opform', 'op': opname_, 'card': repr(card),
+                           'form': kind}
+                try:
+                    getattr(st, opname_)(form)
+                except Exception as exc:   # noqa: BLE001
+                    res.violation(
+                        f'{opname_}({kind} of {card!r}) raised '
+                        f'{type(exc).__name__}: {exc}; the text form is '
+                        f'accepted', payload)
+                    continue
+                d = twin.diff(fref, twin.full_fingerprint(st))
+                if d:
+                    res.violation(
+                        f'{opname_}({kind} of {card!r}) leaves a state that '
+                        f'differs from {opname_}({repr(card)!r}) in {d}',
+                        payload)
+                res.sigs.add(sig('opform', opname_, kind, bool(card)))
 
 
 def check_cards(res, rng, exhaustive):
@@ -457,6 +592,10 @@ def run_shard(seed, shard, of, tier, deadline):
         check_representations(res, rng)
         check_cards(res, rng, exhaustive=False)
         check_helpers(res, rng, 8)
+        if k % 5 == 0:
+            check_game_reuse(res, rng)
+        if k % 25 == 0:
+            check_operation_card_forms(res, rng)
         if k < 1:
             res.add_sample({'kinds': 'representations, cards, invalid '
                             'layouts, helper sweeps'}, limit=1)
